@@ -28,9 +28,11 @@ PLAIN_KINDS = ('text', 'esc', 'linebreak', 'comment', 'cmd', 'env', 'group')
 
 
 class Tok:
-    __slots__ = ('text', 'tag', 'depth', 'region', 'closer', 'owner')
+    __slots__ = ('text', 'tag', 'depth', 'region', 'closer', 'owner', 'path', 'absorbable')
 
-    def __init__(self, text, tag, depth, region, closer=None, owner=None):
+    def __init__(self, text, tag, depth, region, closer=None, owner=None, path=()):
+        self.path = path        # construct ids from the root to this token's construct
+        self.absorbable = False  # a ']' whose loss a later ']' of the same command absorbs
         self.text = text
         self.tag = tag          # text ws esc linebreak comment cmd open close begin end math verb item
         self.depth = depth
@@ -49,11 +51,12 @@ class Doc:
             pos += len(t.text)
             b.append(pos)
         self.bounds = b          # end offset of every token
+        self.paths = [list(t.path) for t in toks]
 
     def closers(self):
         """[(token index, kind)] of real closers outside special regions."""
         return [(i, t.closer) for i, t in enumerate(self.toks)
-                if t.closer and t.region == '']
+                if t.closer and t.region == '' and not t.absorbable]
 
     def hot_sites(self):
         """Token indices where in-flight state exists."""
@@ -84,13 +87,23 @@ class Gen:
         self.brackets_free = brackets_free   # may '[' / ']' appear in text?
         self.cmds = names or CMD_NAMES
         self.region = ['']
+        self.cstack = []
 
     # -- emit helpers --------------------------------------------------
-    def emit(self, text, tag, depth, closer=None, owner=None):
+    def emit(self, text, tag, depth, closer=None, owner=None, own=False):
         if text.startswith('$') and self.toks and self.toks[-1].text.endswith('$') \
                 and not self.toks[-1].text.endswith('\\$'):
-            self.toks.append(Tok(' ', 'ws', depth, self.region[-1]))
-        self.toks.append(Tok(text, tag, depth, self.region[-1], closer, owner))
+            self.toks.append(Tok(' ', 'ws', depth, self.region[-1], path=tuple(self.cstack) + (self.new_id(),)))
+        path = tuple(self.cstack) if (own and self.cstack) else tuple(self.cstack) + (self.new_id(),)
+        self.toks.append(Tok(text, tag, depth, self.region[-1], closer, owner, path))
+
+    def open_c(self):
+        cid = self.new_id()
+        self.cstack.append(cid)
+        return cid
+
+    def close_c(self):
+        self.cstack.pop()
 
     def pick(self, seq):
         return seq[self.r.randrange(len(seq))]
@@ -162,118 +175,145 @@ class Gen:
         self.emit('\n', 'ws', depth)
 
     def args(self, depth, nmin=0, nmax=3, math=False):
+        """Argument chain of the current command/environment construct."""
         n = self.r.randrange(nmin, nmax + 1)
+        bracket_closers = []
         for _ in range(n):
             br = self.r.random() < 0.3
             o, c, ck = ('[', ']', ']') if br else ('{', '}', '}')
-            oid = self.new_id()
-            self.emit(o, 'open', depth)
+            oid = self.open_c()
+            self.emit(o, 'open', depth, own=True)
             inner = self.r.randrange(0, 3)
             kinds = None
             if br:
                 # inside an optional argument a bare ']' would end it early
                 kinds = [k for k in self.kinds if k not in ('list', 'verb')] or ['text']
             self.body(depth + 1, inner, kinds, math)
-            self.emit(c, 'close', depth, closer=ck, owner=oid)
+            self.emit(c, 'close', depth, closer=ck, owner=oid, own=True)
+            if br:
+                bracket_closers.append(self.toks[-1])
+            self.close_c()
+        # losing the ']' of a bracket argument that is followed by another
+        # bracket argument of the same command is absorbed by that later ']'
+        # (brackets do not nest, in TeX as in TexSoup): not a recoverable loss
+        for t in bracket_closers[:-1]:
+            t.absorbable = True
 
     def k_cmd(self, depth, math=False):
         name = self.pick(self.cmds)
-        self.emit('\\' + name, 'cmd', depth)
+        self.open_c()
+        self.emit('\\' + name, 'cmd', depth, own=True)
         self.args(depth, 0, 3, math)
+        self.close_c()
 
     def k_group(self, depth, math=False):
-        oid = self.new_id()
-        self.emit('{', 'open', depth)
+        oid = self.open_c()
+        self.emit('{', 'open', depth, own=True)
         self.body(depth + 1, self.r.randrange(0, 3), None, math)
-        self.emit('}', 'close', depth, closer='}', owner=oid)
+        self.emit('}', 'close', depth, closer='}', owner=oid, own=True)
+        self.close_c()
 
     def k_env(self, depth, math=False):
         name = self.pick(ENV_NAMES)
-        oid = self.new_id()
-        self.emit('\\begin{%s}' % name, 'begin', depth)
+        oid = self.open_c()
+        self.emit('\\begin{%s}' % name, 'begin', depth, own=True)
         if self.r.random() < 0.3:
             self.args(depth, 1, 2)
         if self.ws != 'tight' and self.r.random() < 0.5:
             self.emit('\n', 'ws', depth)
         self.body(depth + 1, self.r.randrange(0, 4))
-        self.emit('\\end{%s}' % name, 'end', depth, closer='end', owner=oid)
+        self.emit('\\end{%s}' % name, 'end', depth, closer='end', owner=oid, own=True)
+        self.close_c()
 
     def k_list(self, depth, math=False):
         name = self.pick(LIST_ENVS)
-        oid = self.new_id()
-        self.emit('\\begin{%s}' % name, 'begin', depth)
+        oid = self.open_c()
+        self.emit('\\begin{%s}' % name, 'begin', depth, own=True)
         self.region.append('list')
-        self.emit('\n', 'ws', depth)
+        self.emit('\n', 'ws', depth, own=True)
         for _ in range(self.r.randrange(1, 4)):
-            self.emit('\\item', 'item', depth + 1)
+            self.open_c()
+            self.emit('\\item', 'item', depth + 1, own=True)
             if self.r.random() < 0.25:
-                self.emit('[', 'open', depth + 1)
-                self.emit(self.pick(WORDS), 'text', depth + 2)
-                self.emit(']', 'close', depth + 1, closer=']', owner=self.new_id())
-            self.emit(' ', 'ws', depth + 1)
+                self.emit('[', 'open', depth + 1, own=True)
+                self.emit(self.pick(WORDS), 'text', depth + 2, own=True)
+                self.emit(']', 'close', depth + 1, closer=']', owner=self.new_id(), own=True)
+            self.emit(' ', 'ws', depth + 1, own=True)
             kinds = [k for k in self.kinds if k not in ('verb',)] or ['text']
             self.body(depth + 2, self.r.randrange(0, 3), kinds)
-            self.emit('\n', 'ws', depth + 1)
+            self.emit('\n', 'ws', depth + 1, own=True)
+            self.close_c()
         self.region.pop()
-        self.emit('\\end{%s}' % name, 'end', depth, closer='end', owner=oid)
+        self.emit('\\end{%s}' % name, 'end', depth, closer='end', owner=oid, own=True)
+        self.close_c()
 
     def k_math(self, depth, math=False):
         o, c = self.pick([('$', '$'), ('$$', '$$'), ('\\(', '\\)'), ('\\[', '\\]')])
-        self.emit(o, 'math', depth)
+        oid = self.open_c()
+        self.emit(o, 'math', depth, own=True)
         self.region.append('math')
         kinds = [k for k in ('text', 'cmd', 'group', 'esc', 'sizer') if k in self.kinds or k == 'text']
         self.body(depth + 1, self.r.randrange(1, 4), kinds, True)
         self.region.pop()
-        self.emit(c, 'math', depth, closer='math', owner=self.new_id())
+        self.emit(c, 'math', depth, closer='math', owner=oid, own=True)
+        self.close_c()
 
     def k_mathenv(self, depth, math=False):
         name = self.pick(MATH_ENVS)
-        self.emit('\\begin{%s}' % name, 'begin', depth)
+        oid = self.open_c()
+        self.emit('\\begin{%s}' % name, 'begin', depth, own=True)
         self.region.append('math')
         kinds = [k for k in ('text', 'cmd', 'group', 'linebreak', 'sizer') if k in self.kinds or k == 'text']
         self.body(depth + 1, self.r.randrange(1, 4), kinds, True)
         self.region.pop()
-        self.emit('\\end{%s}' % name, 'end', depth, closer='end', owner=self.new_id())
+        self.emit('\\end{%s}' % name, 'end', depth, closer='end', owner=oid, own=True)
+        self.close_c()
 
     def k_sizer(self, depth, math=True):
-        self.emit('\\' + self.pick(SIZERS) + self.pick(DELIMS), 'cmd', depth)
+        self.open_c()
+        self.emit('\\' + self.pick(SIZERS) + self.pick(DELIMS), 'cmd', depth, own=True)
         f = self.pick(FOLLOW)
         if f and f not in ('$', '\\'):
-            self.emit(f, 'text', depth)
+            self.emit(f, 'text', depth, own=True)
+        self.close_c()
 
     def k_verb(self, depth, math=False):
         name = self.pick(VERB_ENVS)
-        self.emit('\\begin{%s}' % name, 'begin', depth)
+        oid = self.open_c()
+        self.emit('\\begin{%s}' % name, 'begin', depth, own=True)
         self.region.append('verb')
         raw = self.pick(['', 'x', ' $ \\begin{e} { ', '\\item [', '\n a \\\\ b \n',
                          '\\end{e}', '}}', '\\end {verbatim', '$$ \\[', ' % c }\n'])
-        self.emit(raw, 'verb', depth + 1)
+        self.emit(raw, 'verb', depth + 1, own=True)
         self.region.pop()
-        self.emit('\\end{%s}' % name, 'end', depth, closer='end', owner=self.new_id())
+        self.emit('\\end{%s}' % name, 'end', depth, closer='end', owner=oid, own=True)
+        self.close_c()
 
     def k_newcommand(self, depth, math=False):
         which = self.pick(['newcommand', 'renewcommand', 'providecommand', 'def'])
         self.region.append('special')
+        self.open_c()
         if which == 'def':
-            self.emit('\\def', 'cmd', depth)
-            self.emit('\\' + self.pick(self.cmds), 'cmd', depth)
-            self.emit('{', 'open', depth)
+            self.emit('\\def', 'cmd', depth, own=True)
+            self.emit('\\' + self.pick(self.cmds), 'cmd', depth, own=True)
+            self.emit('{', 'open', depth, own=True)
             self.body(depth + 1, self.r.randrange(0, 2), ['text', 'cmd'])
-            self.emit('}', 'close', depth, closer='}', owner=self.new_id())
+            self.emit('}', 'close', depth, closer='}', owner=self.new_id(), own=True)
         else:
-            self.emit('\\' + which, 'cmd', depth)
-            self.emit('{', 'open', depth)
-            self.emit('\\' + self.pick(self.cmds), 'cmd', depth + 1)
-            self.emit('}', 'close', depth, closer='}', owner=self.new_id())
+            self.emit('\\' + which, 'cmd', depth, own=True)
+            self.emit('{', 'open', depth, own=True)
+            self.emit('\\' + self.pick(self.cmds), 'cmd', depth + 1, own=True)
+            self.emit('}', 'close', depth, closer='}', owner=self.new_id(), own=True)
             if self.r.random() < 0.5:
-                self.emit('[', 'open', depth)
-                self.emit(str(self.r.randrange(1, 4)), 'text', depth + 1)
-                self.emit(']', 'close', depth, closer=']', owner=self.new_id())
-            self.emit('{', 'open', depth)
+                self.emit('[', 'open', depth, own=True)
+                self.emit(str(self.r.randrange(1, 4)), 'text', depth + 1, own=True)
+                self.emit(']', 'close', depth, closer=']', owner=self.new_id(), own=True)
+            self.emit('{', 'open', depth, own=True)
             body = self.pick(['#1', 'x #1 y', '\\begin{e}', '\\end{e}', '\\begin{itemize}', ''])
             if body:
-                self.emit(body, 'text', depth + 1)
-            self.emit('}', 'close', depth, closer='}', owner=self.new_id())
+                self.emit(body, 'text', depth + 1, own=True)
+            self.emit('}', 'close', depth, closer='}', owner=self.new_id(), own=True)
+        self.close_c()
         self.region.pop()
 
     # -- shapes --------------------------------------------------------
@@ -288,22 +328,28 @@ class Gen:
                 kind = self.pick(['env', 'cmd', 'group', 'cmd'])
             if kind == 'env':
                 name = self.pick(ENV_NAMES)
-                self.emit('\\begin{%s}' % name, 'begin', d)
-                closers.append(('\\end{%s}' % name, 'end', 'end'))
+                self.open_c()
+                self.emit('\\begin{%s}' % name, 'begin', d, own=True)
+                closers.append(('\\end{%s}' % name, 'end', 'end', 1))
             elif kind == 'cmd':
-                self.emit('\\' + self.pick(self.cmds), 'cmd', d)
-                self.emit('{', 'open', d)
-                closers.append(('}', 'close', '}'))
+                self.open_c()
+                self.emit('\\' + self.pick(self.cmds), 'cmd', d, own=True)
+                self.open_c()
+                self.emit('{', 'open', d, own=True)
+                closers.append(('}', 'close', '}', 2))
             else:
-                self.emit('{', 'open', d)
-                closers.append(('}', 'close', '}'))
+                self.open_c()
+                self.emit('{', 'open', d, own=True)
+                closers.append(('}', 'close', '}', 1))
             if self.r.random() < 0.3:
                 self.text(d + 1)
         self.text(depth_target)
         d = depth_target
-        for text, tag, ck in reversed(closers):
+        for text, tag, ck, npop in reversed(closers):
             d -= 1
-            self.emit(text, tag, d, closer=ck, owner=self.new_id())
+            self.emit(text, tag, d, closer=ck, owner=self.new_id(), own=True)
+            for _ in range(npop):
+                self.close_c()
             if self.r.random() < 0.2:
                 self.text(d)
 
